@@ -104,6 +104,25 @@ def expected_walk(tree):
     return sorted(out)
 
 
+def expected_walk_pkg(tree):
+    """… and, when the package files are asked for too (`with_pkg=True`, what a -p selection of a package expands with): also the __init__.py
+    of the package and of every regular sub-package below it"""
+    if '__init__.py' not in tree:
+        return []
+    out = ['__init__.py']
+
+    def rec(d, pre):
+        for n, sub in d.items():
+            if sub is None:
+                if n.endswith('.py') and n != '__init__.py':
+                    out.append('/'.join(pre + [n]))
+            elif '__init__.py' in sub:
+                out.append('/'.join(pre + [n, '__init__.py']))
+                rec(sub, pre + [n])
+    rec(tree, [])
+    return sorted(out)
+
+
 def subtree(tree, rel):
     for c in rel.split('/'):
         tree = tree[c]
@@ -247,6 +266,11 @@ def run(ctx):
             if real != exp:
                 ctx.fail('package listing is not exactly the module files of the package and its sub-packages',
                          {'finding_class': None, 'roots': c['roots'], 'package': key, 'package_modpaths': real, 'expected': exp})
+            realp = (r.get('walk_pkg') or {}).get(key)
+            expp = expected_walk_pkg(subtree(c['roots'][ri], rel))
+            if realp is not None and realp != expp:
+                ctx.fail('package listing with the package files (with_pkg) is not exactly the module files and __init__ files of the package and its sub-packages',
+                         {'finding_class': None, 'roots': c['roots'], 'package': key, 'package_modpaths(with_pkg=True)': realp, 'expected': expp})
             if model is not None:
                 mw = sorted(model[ci]['walk'][key].split()) if model[ci]['walk'][key] not in ('nodir',) else None
                 if mw != real:
